@@ -332,6 +332,19 @@ mut("c18_indexerror_on_empty_brace", "C18", [
 ], "a closing brace without an opening one: AssertionError escapes")
 
 # ---------------------------------------------------------------------------------------- C20
+mut("c20_prefix_cyclic_from_imports", "C20", [
+    ("chartparse/track.py",
+     '''if typ.TYPE_CHECKING:  # pragma: no cover
+    # chartparse.instrument and chartparse.sync import this module; importing names from them
+    # here at runtime makes them impossible to import first (circular import).
+    from chartparse.instrument import StarPowerEvent, TrackEvent
+    from chartparse.sync import AnchorEvent, BPMEvent, BPMEvents, TimeSignatureEvent
+''',
+     '''from chartparse.instrument import StarPowerEvent, TrackEvent  # noqa: E402
+from chartparse.sync import AnchorEvent, BPMEvent, BPMEvents, TimeSignatureEvent  # noqa: E402
+'''),
+], "import chartparse.instrument (or .sync) as the first chartparse import (pre-repair code)")
+
 mut("c20_order_dependent_side_effect", "C20", [
     ("chartparse/globalevents.py",
      '''logger = logging.getLogger(__name__)
@@ -340,7 +353,7 @@ mut("c20_order_dependent_side_effect", "C20", [
 
 import sys as _sys
 
-_LOADED_AFTER_INSTRUMENT = "chartparse.instrument" in _sys.modules and hasattr(
+LOADED_AFTER_INSTRUMENT = "chartparse.instrument" in _sys.modules and hasattr(
     _sys.modules["chartparse.instrument"], "TrackEvent"
 )
 '''),
